@@ -203,6 +203,33 @@ class SymCounter:
             tot = eng.binop(ast.Add(), tot, int(e) if isinstance(e, bool) else Sym(z3.If(e, 1, 0), INT))
         return tot
 
+    def _distinct(self, eng):
+        """(key, count) per distinct element in first-occurrence order: decides the equalities between the elements
+        (path split, at most 2^(n-1) paths for n elements)"""
+        out = []
+        for i, x in enumerate(self.items):
+            dup = False
+            for y, _ in out:
+                e = eng.equals(x, y)
+                if e is True or (e is not False and eng.branch(e)):
+                    dup = True
+                    break
+            if not dup:
+                out.append((x, None))
+        return [(x, self.vc_getitem(eng, x)) for x, _ in out]
+
+    def vc_getattr(self, eng, attr, node=None):
+        from .engine import BoundMethod
+        if attr == 'items':
+            return BoundMethod('items', lambda e, a, k: self._distinct(e))
+        if attr == 'keys':
+            return BoundMethod('keys', lambda e, a, k: [x for x, _ in self._distinct(e)])
+        if attr == 'values':
+            return BoundMethod('values', lambda e, a, k: [c for _, c in self._distinct(e)])
+        if attr == 'get':
+            return BoundMethod('get', lambda e, a, k: self.vc_getitem(e, a[0]))
+        raise Unsupported('attribute %s on SymCounter' % attr)
+
 
 class NamedTupleType:
     """collections.namedtuple('Name', 'a b c'): instances are records with those fields (tuple indexing supported)"""
